@@ -6,6 +6,6 @@ git -C /repo apply "$P" || { echo "patch does not apply"; exit 2; }
 trap 'git -C /repo checkout -- . ' EXIT
 (cd /repo && GOFLAGS=-mod=mod GOPROXY=off go build ./... ) || { echo "does not build"; exit 2; }
 for prop in "$@"; do
-  out=$(cd /verif && VERIF_BUDGET_S=$BUD ./check $prop quick 2>&1); rc=$?
+  out=$(cd /verif && VERIF_EVIDENCE_DIR=/dev/shm/mut-evidence VERIF_REPLAY_DIR=/dev/shm/mut-replays VERIF_BUDGET_S=$BUD ./check $prop quick 2>&1); rc=$?
   echo "== $prop exit=$rc"; echo "$out" | grep -E "VIOLATION|class=|KNOWN|^check: [0-9]" | head -6
 done
